@@ -568,7 +568,7 @@ def bindings(fn, name):
     return [s.value for s in walk_no_nested(fn.node) if isinstance(s, ast.Assign) and any(dotted(t) == name for t in s.targets)]
 
 
-def alias_rule(ctx):
+def alias_rule(ctx, P='C05-ALIAS'):
     repo, cg = ctx.repo, ctx.cg
     import operator
     inplace = {n for n in dir(operator) if n.startswith('__i') and ('__' + n[3:]) in dir(operator)}
@@ -579,7 +579,7 @@ def alias_rule(ctx):
     shared = any(isinstance(s, ast.Assign) and any(isinstance(t, ast.Subscript) and (dotted(t.value) or '').endswith('.query_results') for t in s.targets)
                  and dotted(s.value) == 'items' for s in walk_no_nested(af.node)) and \
         any(isinstance(s, ast.Return) and dotted(s.value) == 'items' for s in walk_no_nested(af.node))
-    ctx.need(shared, 'C05-ALIAS: _actual_fetch no longer returns the cached list itself (rule needs review)')
+    ctx.need(shared, P + ': _actual_fetch no longer returns the cached list itself (rule needs review)')
     n = 0
     for name, f in QR.methods.items():
         me = f.params[0] if f.params else 'self'
@@ -593,13 +593,13 @@ def alias_rule(ctx):
                 bad = 'shuffle(%s)' % norm(c.args[0])
             if bad:
                 n += 1
-                ctx.ob('C05-ALIAS.cached-result-list-not-mutated-in-place', f, c, False,
+                ctx.ob(P + '.cached-result-list-not-mutated-in-place', f, c, False,
                        '%s mutates the list object that is also stored in cache.query_results: the same query repeated in this session is '
                        'answered with the mutated list' % bad, node=c, expected='work on a copy of the cached list')
         n += 1
-        if not any(o.fn == f.qual and o.rule.startswith('C05-ALIAS') and not o.ok for o in ctx.obs):
-            ctx.ob('C05-ALIAS.cached-result-list-not-mutated-in-place', f, f.node, True, nontrivial=False)
-    ctx.floor('C05-ALIAS', n, 30, 'QueryResult methods examined')
+        if not any(o.fn == f.qual and o.rule.startswith(P) and not o.ok for o in ctx.obs):
+            ctx.ob(P + '.cached-result-list-not-mutated-in-place', f, f.node, True, nontrivial=False)
+    ctx.floor(P, n, 30, 'QueryResult methods examined')
 
 
 MUTANTS = [
